@@ -274,6 +274,58 @@ func evalC03(t *testing.T, c *Case, st *Stats, relax Relax) *Violation {
 				}
 			}
 		}
+		// 4c. a write whose restore of the existing content fails (one drive read error), then Close:
+		// the file afterwards holds its old content or the old content with the write applied, never
+		// a half-restored buffer
+		if rf := int(c.Param("rfault", 0)); rf > 0 {
+			var names []string
+			for p, b := range want {
+				if len(b) > 3 {
+					names = append(names, p)
+				}
+			}
+			sort.Strings(names)
+			if len(names) > 0 {
+				p := names[rf%len(names)]
+				old := want[p]
+				dev := x.W.Dev
+				pd := &Data{Len: 3, Kind: "hash", Tag: 0xF38}
+				patch := pd.Bytes()
+				attempt := func(plan []Fault) (Res, Res) {
+					x.Ex.Do(Op{K: "openfile", P: p, H: 81, F: os.O_RDWR, M: 0o644})
+					dev.ResetCounts()
+					dev.SetPlan(plan)
+					w := x.Ex.Do(Op{K: "h.write", H: 81, D: pd})
+					dev.SetPlan(nil)
+					dev.Enabled = false
+					cl := x.Ex.Do(Op{K: "h.close", H: 81})
+					return w, cl
+				}
+				// pilot on a scratch copy of the counts: how many drive reads does the restore make?
+				dev.ResetCounts()
+				dev.SetPlan(nil)
+				x.Ex.Do(Op{K: "readfile", P: p})
+				n := dev.Snapshot()["drive.read"]
+				dev.Enabled = false
+				if n > 0 {
+					k := 1 + (rf*7)%n
+					w, cl := attempt([]Fault{{Seam: "drive.read", K: k}})
+					r := x.Ex.Do(Op{K: "readfile", P: p})
+					patched := append(append([]byte(nil), patch...), old[3:]...)
+					switch {
+					case r.Class != "ok":
+						return mk("read-after-failed-write-fails", fmt.Sprintf("%s: write %s, close %s, then reading fails: %s", p, w.Class, cl.Class, r.Err))
+					case bytes.Equal(r.Data, old):
+						st.Add("failed_write_left_old_content", 1)
+					case bytes.Equal(r.Data, patched) && w.Class == "ok" && cl.Class == "ok":
+						st.Add("faulted_write_succeeded", 1)
+						want[p] = patched
+					default:
+						return mk("failed-write-corrupts-content", fmt.Sprintf("%s: the drive failed at read %d of %d while the first write restored the existing content (write: %s %s, close: %s %s); afterwards the file reads %s, it held %s (with the write applied it would hold %s)", p, k, n, w.Class, w.Err, cl.Class, cl.Err, sumOf(r.Data), sumOf(old), sumOf(patched)))
+					}
+				}
+			}
+		}
 		// 5. non-regular (tape) codec parameters
 		if v := tapeCodecRoundTrip(c, st, want); v != nil {
 			return v
